@@ -242,20 +242,37 @@ func finish(cases []Case, out string, st *Stats, start time.Time) {
 		nw = 16
 	}
 	results := runCases(cases, nw, 30*time.Second)
-	// a HANG or CRASH under a loaded machine proves nothing: run those cases again, one at a time, with a long
-	// deadline, and believe the second answer
+	// a HANG or CRASH under a loaded machine proves nothing: run those cases again with a long deadline and little
+	// company, and believe the second answer.  When there are many (a tree in which something really spins) a sample
+	// of 8 is re-run first (4 at a time, 60 s each); the rest keep their verdict if every sampled one is confirmed, and are re-run too otherwise.
 	again := []Case{}
 	for _, c := range cases {
 		if r := results[c.ID]; r == "HANG" || r == "CRASH" {
 			again = append(again, c)
 		}
 	}
-	if len(again) > 0 && len(again) <= 200 {
-		second := runCases(again, 1, 180*time.Second)
+	if len(again) > 0 {
+		sample := again
+		if len(sample) > 8 {
+			sample = again[:8]
+		}
+		second := runCases(sample, 4, 60*time.Second)
+		confirmed := 0
 		for id, r := range second {
+			if r == results[id] {
+				confirmed++
+			}
 			results[id] = r
 		}
-		st.Counts["rerun-alone"] = len(again)
+		st.Counts["rerun-alone"] = len(sample)
+		if confirmed < len(sample) && len(again) > len(sample) && len(again) <= 400 {
+			rest := again[len(sample):]
+			third := runCases(rest, 4, 60*time.Second)
+			for id, r := range third {
+				results[id] = r
+			}
+			st.Counts["rerun-alone"] = len(again)
+		}
 	}
 	caseLines, implLines, leanLines := []string{}, []string{}, []string{}
 	for _, c := range cases {
